@@ -226,6 +226,10 @@ func (e *Env) ident(name string) Val {
 	if name == "nil" {
 		return Val{T: "nil", S: "Nil"}
 	}
+	// instantiation constant of the function being verified (`instantiate NAME in lo..hi`)
+	if k, ok := g.inst[name]; ok {
+		return Val{T: g.ilit64(k), S: g.idx(), K: big.NewInt(k)}
+	}
 	if e.lookup != nil {
 		if v, ok := e.lookup(name); ok {
 			return v
@@ -815,6 +819,56 @@ func (e *Env) call(n *ECall) Val {
 		}
 		g.implementsFacts(p, t)
 		return Val{T: fmt.Sprintf("(%s (tagof %s))", p, v.T), S: "Bool", GT: types.Typ[types.Bool]}
+	case "conj":
+		// conj(j, lo, hi, body): finite conjunction with constant bounds (after `instantiate`), expanded (quantifier-free)
+		id, ok := n.Args[0].(*EIdent)
+		if !ok || len(n.Args) != 4 {
+			e.fail("conj(j, lo, hi, body)")
+		}
+		lo, hi := e.tr(n.Args[1]), e.tr(n.Args[2])
+		if lo.K == nil || hi.K == nil {
+			e.fail("conj: bounds must be constants (use `instantiate`)")
+		}
+		terms := []string{"true"}
+		for k := lo.K.Int64(); k < hi.K.Int64(); k++ {
+			c := e.child()
+			c.vars[id.Name] = Val{T: g.ilit64(k), S: g.idx(), K: big.NewInt(k)}
+			terms = append(terms, c.trBool(n.Args[3]))
+		}
+		return Val{T: "(and " + strings.Join(terms, " ") + ")", S: "Bool", GT: types.Typ[types.Bool]}
+	case "sum":
+		// sum(j, lo, hi, body): finite sum with constant bounds (after `instantiate`), expanded term by term
+		id, ok := n.Args[0].(*EIdent)
+		if !ok || len(n.Args) != 4 {
+			e.fail("sum(j, lo, hi, body)")
+		}
+		lo, hi := e.tr(n.Args[1]), e.tr(n.Args[2])
+		if lo.K == nil || hi.K == nil {
+			e.fail("sum: bounds must be constants (use `instantiate`)")
+		}
+		var terms []string
+		var gt types.Type
+		var sort string
+		for k := lo.K.Int64(); k < hi.K.Int64(); k++ {
+			c := e.child()
+			c.vars[id.Name] = Val{T: g.ilit64(k), S: g.idx(), K: big.NewInt(k)}
+			t := c.tr(n.Args[3])
+			if t.GT == nil && t.K != nil {
+				t = e.constAs(t.K, types.Typ[types.Int64])
+			}
+			gt, sort = t.GT, t.S
+			terms = append(terms, t.T)
+		}
+		if g.mode != "int" {
+			e.fail("sum() is available in int mode only")
+		}
+		if len(terms) == 0 {
+			return Val{T: "0", S: "Int", GT: types.Typ[types.Int64]}
+		}
+		if len(terms) == 1 {
+			return Val{T: terms[0], S: sort, GT: gt}
+		}
+		return Val{T: "(+ " + strings.Join(terms, " ") + ")", S: sort, GT: gt}
 	case "mod":
 		// mod(x, y): the mathematical (SMT-LIB) remainder, equal to Go's x % y for x >= 0, y > 0 (int mode only)
 		if g.mode != "int" {
@@ -920,6 +974,16 @@ func (e *Env) heapTypeFact(v Val) {
 	if f != "true" && !e.g.declared["tf:"+v.T] {
 		e.g.declared["tf:"+v.T] = true
 		e.g.assume(f)
+		// a reference stored in the heap of some state was allocated before that state
+		if st := e.state(); st != nil {
+			al := e.g.heapGet(st, "$alloc", "Int")
+			switch v.GT.Underlying().(type) {
+			case *types.Pointer, *types.Map:
+				e.g.assume(fmt.Sprintf("(< %s %s)", v.T, al))
+			case *types.Slice:
+				e.g.assume(fmt.Sprintf("(< (s-ref %s) %s)", v.T, al))
+			}
+		}
 	}
 }
 
@@ -1007,4 +1071,50 @@ func (e *Env) tryTr(x Expr) (v Val, ok bool) {
 		}
 	}()
 	return e.tr(x), true
+}
+
+// topParts splits a clause with a top-level finite conjunction -- conj(j, lo, hi, P) or G ==> conj(...) -- into one
+// term per instance, so that each instance is its own (small) obligation. Any other clause is a single part.
+type topPart struct {
+	Suffix string
+	T      string
+}
+
+func (e *Env) topParts(x Expr) []topPart {
+	switch n := x.(type) {
+	case *ECall:
+		if id, ok := n.Fn.(*EIdent); ok && id.Name == "conj" && len(n.Args) == 4 {
+			v, ok := n.Args[0].(*EIdent)
+			if !ok {
+				break
+			}
+			lo, hi := e.tr(n.Args[1]), e.tr(n.Args[2])
+			if lo.K == nil || hi.K == nil {
+				break
+			}
+			var out []topPart
+			for k := lo.K.Int64(); k < hi.K.Int64(); k++ {
+				c := e.child()
+				c.vars[v.Name] = Val{T: e.g.ilit64(k), S: e.g.idx(), K: big.NewInt(k)}
+				for _, p := range c.topParts(n.Args[3]) {
+					out = append(out, topPart{Suffix: fmt.Sprintf(".%s%d%s", v.Name, k, p.Suffix), T: p.T})
+				}
+			}
+			if len(out) > 0 {
+				return out
+			}
+		}
+	case *EBin:
+		if n.Op == "==>" {
+			ps := e.topParts(n.Y)
+			if len(ps) > 1 {
+				gd := e.trBool(n.X)
+				for i := range ps {
+					ps[i].T = fmt.Sprintf("(=> %s %s)", gd, ps[i].T)
+				}
+				return ps
+			}
+		}
+	}
+	return []topPart{{T: e.trBool(x)}}
 }
